@@ -102,7 +102,11 @@ def gen_string(rng, idx, canary_dir):
         # fragments with a meaning of their own somewhere on the way to the class text: template placeholders, format fields,
         # characters outside the BMP (a JSON-style escape would split them), BOM, line separators
         frag = rng.choice(['{titles}', '{sheets_size}', '{functions}', '{0}', '{name}', '%(x)s', '\U0001F680', '\U0001D518', '\ufeff', '\u2028', '\u0085',
-                           '\\u0041', '\\N{BULLET}'])
+                           '\\u0041', '\\N{BULLET}',
+                           # words that mean something to the file format, to Excel or to the generated class - inside a text they mean nothing
+                           '_xlfn.', '_xlfn.IFS(', '_xlws.', '_xludf.', '_xlpm.x', 'self.', '_cell_preprocessor', 'EmptyCell()', 'lambda: ', 'return ', 'def _0_0_0',
+                           'TRUE', 'FALSE', 'R1C1', 'Sheet1!A1', '$A$1', '#REF!', '&amp;', '&lt;b&gt;', '[#This Row]', '@A1', 'A1:B2', 'SUM(A1)', '=A1', ' AND ', 'C:\\Users\\x',
+                           '\\Ufoo', '\\x4', "'''", '"""'])
         cut = rng.randrange(0, len(body) + 1)
         body = body[:cut] + frag + body[cut:]
     payload = None
